@@ -4,16 +4,25 @@ import (
 	"fmt"
 	"time"
 
+	"github.com/consensys/gnark/frontend"
+
+	"verifharness/engine"
 	"verifharness/inst"
-	"verifharness/ref"
+	"verifharness/props"
 )
 
 func main() {
-	fmt.Println("selftest:", ref.SelfTest())
-	var fs [][3]string
-	for _, f := range inst.All() {
-		fs = append(fs, [3]string{f.Proof, f.VD, f.Common})
-	}
+	in := inst.Load(inst.All()[0]).Restrict(1)
 	t0 := time.Now()
-	fmt.Println("proofs:", ref.SelfTestProofs(fs, 0), time.Since(t0))
+	rep, results, err := props.ShadowFixpoint(engine.Native, func() frontend.Circuit { return in.Clone().VerifierCircuit() }, 8)
+	fmt.Println(err, len(results), time.Since(t0))
+	if rep != nil {
+		for _, f := range rep.SortedFindings() {
+			fmt.Println("FINDING", f.Kind, f.Site, f.Detail, rep.FindCount[f.Kind+"|"+f.Site])
+		}
+		fmt.Println("sites", len(rep.Sites), "eqsites", len(rep.EqSites))
+		for k, s := range rep.Sites {
+			fmt.Println(k, s.Count, s.MaxObsBits, s.AllowedBits, s.HonBits)
+		}
+	}
 }
